@@ -100,6 +100,11 @@ impl<'a> TileSizesRef<'a> {
     #[verifier::external_body]
     pub fn last(&self) -> (r: usize) requires self.0@.len() >= 1 ensures r == self.0@[self.0@.len() - 1] { unimplemented!() }
 }
+/// R-into: `(t as u32).into()` (From<u32> for ImageSize: a square image)
+pub fn image_size_from(v: u32) -> (r: ImageSize) ensures r.w == v, r.h == v { ImageSize { w: v, h: v } }
+/// R-memtake: `std::mem::take(&mut self.image)`
+#[verifier::external_body]
+pub fn take_image(img: &mut Image) -> (r: Image) ensures r == *old(img) { unimplemented!() }
 /// R-vecmacro: `vec![v; n]`
 #[verifier::external_body]
 pub fn vec_f32(v: f32, n: usize) -> (r: Vec<f32>) ensures r@.len() == n { vec![v; n] }
